@@ -235,6 +235,54 @@ def r4_final_open(ctx):
             out.append(violated("C09.R4", key, t.where(), "reopen flags reach the final open without %s having been refused" % "/".join(sorted(set(bad)))))
         else:
             out.append(holds("C09.R4", key, t.where(), "creation flags proven absent at the final open"))
+    # the wrapper used for the final open forces O_CLOEXEC|O_NOCTTY at its raw sink
+    from .c05 import r2_forced_flags
+    for i in r2_forced_flags(ctx):
+        if i.rule == "C05.R2a" and i.key.startswith("syscalls::openat_follow:"):
+            i.rule = "C09.R4"
+            i.key = "open_follow:final-open:forced-bits"
+            out.append(i)
+    return out
+
+
+def r5_probe_discipline(ctx):
+    """open_follow decides between 'follow the magic-link' and 'no-follow open' by a readlink probe.  A failing
+    probe may select the no-follow open (which, with O_PATH, returns the link itself: a different object) only
+    when the failure means 'not a link' (ENOENT: missing, or readlinkat on a non-link); the magic-link open is
+    reachable after a failed probe only when the failure still proves a link (ENAMETOOLONG)."""
+    from ..cut import errno_branches, failure_edges
+    F = ctx.facts
+    T = ctx.tracer
+    out = []
+    b = F.body(PH + "::open_follow")
+    cfg = cfg_of(b)
+    probes = list(b.calls(PH + "::readlink"))
+    fb = list(b.calls(PH + "::open"))
+    sinks = list(b.calls("syscalls::openat_follow"))
+    if len(probes) != 1 or not sinks:
+        return [violated("C09.R5", "open_follow:probe", b.where(), "expected one readlink probe and a final open in open_follow")]
+    fe = failure_edges(b, T, probes[0])
+    if not fe:
+        return [unproven("C09.R5", "open_follow:probe", probes[0].where(), "cannot find how the result of the readlink probe is consumed")]
+    brs = errno_branches(b, T)
+    enoent_eq = [e.key() for br in brs if br["errno"] == ENOENT for e in br["eq"]]
+    toolong_eq = [e.key() for br in brs if br["errno"] == ENAMETOOLONG for e in br["eq"]]
+    # the no-follow fallback carries the caller's flags
+    # opens that are also performed after a successful probe (the parent directory of the link) are not the fallback
+    nofollow = fb
+    reach_wo_enoent = cfg.edge_targets_reachable(fe[0], cut_edges=enoent_eq)
+    bad = [t for t in nofollow if t.bb in reach_wo_enoent and t.bb not in cfg.edge_targets_reachable(fe[1], cut_edges=[e.key() for e in fe[0]])]
+    if bad:
+        out.append(violated("C09.R5", "open_follow:fallback-only-enoent", bad[0].where(),
+                            "a failure of the readlink probe other than ENOENT (ENAMETOOLONG for a long path, EMFILE/ENOMEM...) selects the no-follow open: "
+                            "with O_PATH it returns the magic-link itself, a different object than the handle refers to"))
+    else:
+        out.append(holds("C09.R5", "open_follow:fallback-only-enoent", probes[0].where(), "after a failed probe the no-follow open is reachable only through the ENOENT branch"))
+    reach_wo_toolong = cfg.edge_targets_reachable(fe[0], cut_edges=toolong_eq)
+    if sinks[0].bb in reach_wo_toolong:
+        out.append(violated("C09.R5", "open_follow:follow-needs-link", sinks[0].where(), "the magic-link open is reachable after a failed probe that does not prove the target is a link"))
+    else:
+        out.append(holds("C09.R5", "open_follow:follow-needs-link", sinks[0].where(), "after a failed probe the magic-link open is reachable only through the ENAMETOOLONG branch"))
     return out
 
 
@@ -242,5 +290,6 @@ RULES = [
     ("C09.R1", r1_by_descriptor, 3, False),
     ("C09.R2", r2_symlink_refused, 3, False),
     ("C09.R3", r3_fd_zero_valid, 2, False),
-    ("C09.R4", r4_final_open, 1, False),
+    ("C09.R4", r4_final_open, 2, False),
+    ("C09.R5", r5_probe_discipline, 2, False),
 ]
